@@ -19,6 +19,9 @@ type Clause struct {
 	label string
 	text  string
 	loop  int    // for invariant/decreases
+	at    string // for kind "at": label name, or "call:NAME#K"
+	callPos token.Pos
+	callExtra []string
 	pos   token.Position
 	// filled by the type-checking step
 	expr ast.Expr
@@ -142,6 +145,26 @@ func parseContracts(pkg *packages.Package) ([]*Contract, error) {
 					}
 					cur.clauses = append(cur.clauses, cl)
 					last = cl
+				case "at":
+					// at LABEL assert [name:] EXPR — an assertion (cut point) at a labelled statement
+					fs := strings.SplitN(rest, " ", 3)
+					if len(fs) == 3 && fs[0] == "call" {
+						// at call NAME#K assert EXPR
+						gs := strings.SplitN(fs[2], " ", 2)
+						if len(gs) != 2 || gs[0] != "assert" {
+							return nil, fmt.Errorf("%s: at call NAME#K assert EXPR", pos)
+						}
+						fs = []string{"call:" + fs[1], "assert", gs[1]}
+					}
+					if len(fs) < 3 || fs[1] != "assert" {
+						return nil, fmt.Errorf("%s: at LABEL assert EXPR", pos)
+					}
+					cl := &Clause{kind: "at", text: fs[2], at: fs[0], pos: pos}
+					if m := labelRE.FindStringSubmatch(cl.text); m != nil {
+						cl.label, cl.text = m[1], m[2]
+					}
+					cur.clauses = append(cur.clauses, cl)
+					last = cl
 				case "loop":
 					fs := strings.SplitN(rest, " ", 3)
 					if len(fs) < 3 {
@@ -169,9 +192,103 @@ func parseContracts(pkg *packages.Package) ([]*Contract, error) {
 	return out, nil
 }
 
-// rewriteImplies turns a top-level `A ==> B` (right associative, lowest
-// precedence) into implies(A, B); nested uses must be written implies(…).
+// rewriteImplies turns `A ==> B` (right associative, lowest precedence within
+// its parenthesised group) into implies(A, B), recursively inside parentheses,
+// brackets and braces.
 func rewriteImplies(s string) string {
+	if !strings.Contains(s, "==>") {
+		return s
+	}
+	// first rewrite inside every top-level bracket group
+	var sb strings.Builder
+	depth := 0
+	inStr := byte(0)
+	groupStart := -1
+	for i := 0; i < len(s); i++ {
+		c := s[i]
+		if inStr != 0 {
+			if depth == 0 {
+				sb.WriteByte(c)
+			}
+			if c == '\\' && i+1 < len(s) {
+				i++
+				if depth == 0 {
+					sb.WriteByte(s[i])
+				}
+			} else if c == inStr {
+				inStr = 0
+			}
+			continue
+		}
+		switch c {
+		case '"', '\'', '`':
+			inStr = c
+			if depth == 0 {
+				sb.WriteByte(c)
+			}
+		case '(', '[', '{':
+			if depth == 0 {
+				sb.WriteByte(c)
+				groupStart = i + 1
+			}
+			depth++
+		case ')', ']', '}':
+			depth--
+			if depth == 0 {
+				sb.WriteString(rewriteImplies(s[groupStart:i]))
+				sb.WriteByte(c)
+			}
+		default:
+			if depth == 0 {
+				sb.WriteByte(c)
+			}
+		}
+	}
+	s = sb.String()
+	// then the top level of this group: split at `;`-free commas? no — a single expression or
+	// a comma-separated argument list / statement list; rewrite each part.
+	parts := splitTopAny(s)
+	for i, p := range parts {
+		parts[i] = rewriteTopImplies(p)
+	}
+	return strings.Join(parts, "")
+}
+
+// splitTopAny splits s at top-level commas, semicolons and the keyword
+// `return`, keeping the separators, so that each piece is one expression.
+func splitTopAny(s string) []string {
+	var out []string
+	depth := 0
+	inStr := byte(0)
+	start := 0
+	for i := 0; i < len(s); i++ {
+		c := s[i]
+		if inStr != 0 {
+			if c == '\\' {
+				i++
+			} else if c == inStr {
+				inStr = 0
+			}
+			continue
+		}
+		switch c {
+		case '"', '\'', '`':
+			inStr = c
+		case '(', '[', '{':
+			depth++
+		case ')', ']', '}':
+			depth--
+		case ',', ';':
+			if depth == 0 {
+				out = append(out, s[start:i], string(c))
+				start = i + 1
+			}
+		}
+	}
+	return append(out, s[start:])
+}
+
+func rewriteTopImplies(s string) string {
 	depth := 0
 	inStr := byte(0)
 	for i := 0; i+2 < len(s); i++ {
@@ -193,7 +310,14 @@ func rewriteImplies(s string) string {
 			depth--
 		case '=':
 			if depth == 0 && s[i+1] == '=' && s[i+2] == '>' {
-				return "implies(" + strings.TrimSpace(s[:i]) + ", " + rewriteImplies(strings.TrimSpace(s[i+3:])) + ")"
+				lhs := s[:i]
+				prefix := ""
+				// keep a leading `return ` (function literal bodies) outside the call
+				if t := strings.TrimLeft(lhs, " "); strings.HasPrefix(t, "return ") {
+					prefix = lhs[:len(lhs)-len(t)] + "return "
+					lhs = t[len("return "):]
+				}
+				return prefix + "implies(" + strings.TrimSpace(lhs) + ", " + rewriteTopImplies(strings.TrimSpace(s[i+3:])) + ")"
 			}
 		}
 	}
